@@ -411,6 +411,45 @@ def mutations(run: Run, d: dict, key, directed: bool = False):
     return out
 
 
+def edge32_values() -> list:
+    """Exact ties and boundaries of binary32 (every value is an exact float64): half-way points with an even and an odd
+    significand below them, one float64 ulp on each side of a tie, the tie that renormalises (2^24 - 1/2 -> 2^24), 2^24 +- 1,
+    subnormal ties (2^-150 -> 0, 3*2^-150 -> 2^-148, 5*2^-150 -> 2^-148), the largest subnormal, the smallest normal, the tie
+    between them, powers of two over the whole range, the largest finite float32 (overflow is outside the model: never generated).
+    Used twice: r32 against torch.tensor directly, and as parameter values of dictionaries given to the REAL BaseModel.load."""
+    ties = [8388613.5, 8388614.5, 8388615.5, 16777215.5, 16777215.0, 16777216.0, 16777217.0, 16777218.0, 33554434.0, 33554438.0,
+            1.0 + 2 ** -24 - 2 ** -52, 1.0 + 2 ** -24 + 2 ** -52, 1.0 + 3 * 2 ** -24 - 2 ** -52, 1.0 + 3 * 2 ** -24 + 2 ** -52,
+            2.0 - 2 ** -25, 2.0 - 2 ** -24, 0.5 - 2 ** -27, 0.1 + 0.2, 2 / 3,
+            2.0 ** -150, 3 * 2.0 ** -150, 5 * 2.0 ** -150, 2.0 ** -150 * (1 + 2 ** -52), 2.0 ** -150 * (1 - 2 ** -53), 2.0 ** -151,
+            (2 ** 23 - 1) * 2.0 ** -149, 2.0 ** -126, (2 ** 24 - 1) * 2.0 ** -150, (2 ** 24 - 3) * 2.0 ** -150,
+            (2 ** 24 + 1) * 2.0 ** -150, (2 ** 23 + 1) * 2.0 ** -149, 2.0 ** -126 * (1 + 2 ** -24), 2.0 ** -126 * (1 + 3 * 2 ** -24),
+            (2 ** 24 - 1) * 2.0 ** 104, (2 ** 24 - 1) * 2.0 ** 104 * (1 + 2 ** -30), (2 ** 25 - 3) * 2.0 ** 103]
+    ties += [2.0 ** k for k in (-149, -148, -127, -125, -100, -24, -23, -1, 1, 10, 23, 25, 64, 100, 127)]
+    ties += [-t for t in ties[:16] + ties[19:29]]
+    return ties
+
+
+EDGE_PARAMS = ("tau_mean", "tau_std", "xi_std", "noise_std")   # parameters the mixing matrix does not depend on
+
+
+def edge_edit(d: dict, offset: int):
+    """The dictionary with every number of EDGE_PARAMS replaced by the next tie / boundary value (float64, NOT float32 values:
+    the real load has to round them); returns (dictionary, number of values replaced)."""
+    ties = edge32_values()
+    dd = copy.deepcopy(d)
+    n = [0]
+
+    def repl(x):
+        if isinstance(x, list):
+            return [repl(y) for y in x]
+        v = ties[(offset + n[0]) % len(ties)]
+        n[0] += 1
+        return v
+    for p in EDGE_PARAMS:
+        if p in dd.get("parameters", {}):
+            dd["parameters"][p] = repl(dd["parameters"][p])
+    return dd, n[0]
+
 # ----------------------------------------------------------------------------- comparisons on the real code
 
 
@@ -1162,6 +1201,7 @@ def _check(run: Run, thorough: bool, version: str, tmp: Path):
     import torch
     specs = config_specs(run, thorough)
     save_cases, save_meta, load_cases, load_meta = [], [], [], []
+    edge_off = [0]
     for idx, spec in enumerate(specs):
         try:
             m, df = build_model(spec)
@@ -1189,7 +1229,12 @@ def _check(run: Run, thorough: bool, version: str, tmp: Path):
             run.fail(f"save-load:to_dict-raises:{payload}", "to_dict raised on an initialised model", spec)
             continue
         # --- T2: load of the image and of hand edits
-        for tag, d in [("image", payload)] + mutations(run, payload, idx, directed=bool(spec.get("directed"))):
+        edge_d, n_edge = edge_edit(payload, edge_off[0])
+        edge_off[0] += n_edge
+        edits = [("image", payload)] + mutations(run, payload, idx, directed=bool(spec.get("directed")))
+        if n_edge:
+            edits.append(("param:float32-edge", edge_d))
+        for tag, d in edits:
             k2, r2 = real_load(d)
             if k2 == "err" and r2.startswith("unmodelled:"):
                 # JointModel configured with two observation models named "y" (construction-time ValueError of the DAG):
@@ -1205,6 +1250,15 @@ def _check(run: Run, thorough: bool, version: str, tmp: Path):
                     obs = coq_result("err", ERR[r2])
                 load_cases.append(f"({coq_dict(d)}, {obs})")
                 load_meta.append(dict(spec=spec, edit=tag, settings=d, observed=("ok" if k2 == "ok" else r2)))
+                if tag == "param:float32-edge":
+                    run.count("r32-edge", "through-BaseModel.load:" + ("ok" if k2 == "ok" else r2), n_edge)
+                    if k2 == "ok":
+                        # ... and what to_dict writes for the float32 ties / subnormals / 2^127 the reloaded model now holds
+                        k3, p3 = real_to_dict(r2)
+                        if k3 == "ok":
+                            save_cases.append(f"({coq_model(r2)}, {cs(version)}, (Ok {coq_dict(p3)}))")
+                            save_meta.append(dict(spec=spec, edit=tag, settings=d))
+                            run.count("r32-edge", "through-to_dict", n_edge)
                 run.count("load-outcome", "ok" if k2 == "ok" else r2)
                 run.count("edit", tag.split(":")[0])
                 run.case(("load", json.dumps(d, sort_keys=True)), nontrivial=(tag != "image" or nontriv))
@@ -1215,6 +1269,12 @@ def _check(run: Run, thorough: bool, version: str, tmp: Path):
         if spec.get("fit_iter"):
             oracle_self_consistent(run, m, spec)
             oracle_final_parameters(run, m, getattr(m, "_c12_sampling_state", None), spec)
+    n_edge_ok = run.distribution.get("r32-edge", {}).get("through-BaseModel.load:ok", 0)
+    run.extra["r32_edge_values_through_real_load"] = n_edge_ok
+    if specs and n_edge_ok < len(edge32_values()):
+        # fail closed: the binary32 ties / boundaries must reach the real load (each at least once over the configurations)
+        run.broken("tie:float32-edge-not-exercised", f"only {n_edge_ok} tie / boundary values went through BaseModel.load "
+                   f"(expected at least {len(edge32_values())})", kind="broken-correspondence")
     if save_meta:
         run.sample(dict(kind="save-case", spec=save_meta[0]))
     if load_meta:
@@ -1267,19 +1327,7 @@ def _check(run: Run, thorough: bool, version: str, tmp: Path):
     vals = [rng.uniform(-100, 100) for _ in range(150)] + [rng.uniform(-1, 1) * 10 ** rng.randrange(-44, 38) for _ in range(150)]
     vals += [0.1, 1 / 3, 16777217.0, 16777219.0, 1e-45, 1.4e-45, 7e-46, 2.1e-45, 1.1754943e-38, 5e-324, 0.0, 1.0 + 2 ** -24,
              1.0 + 2 ** -24 + 2 ** -50, 1.0 + 3 * 2 ** -24]
-    # exact ties and boundaries of binary32 (every value below is an exact float64): half-way points with an even and an odd
-    # significand below them, one float64 ulp on each side of a tie, the tie that renormalises (2^24 - 1/2 -> 2^24), 2^24 +- 1,
-    # subnormal ties (2^-150 -> 0, 3*2^-150 -> 2^-148, 5*2^-150 -> 2^-148), the largest subnormal, the smallest normal, the tie
-    # between them, powers of two over the whole range, the largest finite float32 (overflow is outside the model: never generated)
-    ties = [8388613.5, 8388614.5, 8388615.5, 16777215.5, 16777215.0, 16777216.0, 16777217.0, 16777218.0, 33554434.0, 33554438.0,
-            1.0 + 2 ** -24 - 2 ** -52, 1.0 + 2 ** -24 + 2 ** -52, 1.0 + 3 * 2 ** -24 - 2 ** -52, 1.0 + 3 * 2 ** -24 + 2 ** -52,
-            2.0 - 2 ** -25, 2.0 - 2 ** -24, 0.5 - 2 ** -27, 0.1 + 0.2, 2 / 3,
-            2.0 ** -150, 3 * 2.0 ** -150, 5 * 2.0 ** -150, 2.0 ** -150 * (1 + 2 ** -52), 2.0 ** -150 * (1 - 2 ** -53), 2.0 ** -151,
-            (2 ** 23 - 1) * 2.0 ** -149, 2.0 ** -126, (2 ** 24 - 1) * 2.0 ** -150, (2 ** 24 - 3) * 2.0 ** -150,
-            (2 ** 24 + 1) * 2.0 ** -150, (2 ** 23 + 1) * 2.0 ** -149, 2.0 ** -126 * (1 + 2 ** -24), 2.0 ** -126 * (1 + 3 * 2 ** -24),
-            (2 ** 24 - 1) * 2.0 ** 104, (2 ** 24 - 1) * 2.0 ** 104 * (1 + 2 ** -30), (2 ** 25 - 3) * 2.0 ** 103]
-    ties += [2.0 ** k for k in (-149, -148, -127, -125, -100, -24, -23, -1, 1, 10, 23, 25, 64, 100, 127)]
-    ties += [-t for t in ties[:16] + ties[19:29]]
+    ties = edge32_values()
     for t in ties:
         assert math.isfinite(t) and math.isfinite(float(torch.tensor([t]).item())), t
         run.count("r32-edge", "tie-or-boundary")
